@@ -45,9 +45,9 @@ Definition object_unopened (a : arch) (pl : pols) (d : doc) : bool :=
 (* d is never loaded by a target of type t, whatever the target holds *)
 Fixpoint never_loads (a : arch) (pl : pols) (t : ty) (d : doc) : bool :=
   match t with
-  | TInt => unloaded (load_int pl 0%Z d)
-  | TBool => unloaded (load_bool pl false d)
-  | TStr => unloaded (load_str a pl [] d)
+  | TInt => unloaded (load_int pl 0%Z (as_int a d))
+  | TBool => unloaded (load_bool pl false (as_bool a d))
+  | TStr => unloaded (load_str a pl [] (as_str a d))
   | TMap _ _ | TPair _ _ => object_unopened a pl d
   | TPtr _ t' => never_loads a pl t' d
   | _ => array_unopened a pl d
@@ -60,9 +60,9 @@ Fixpoint never_loads (a : arch) (pl : pols) (t : ty) (d : doc) : bool :=
    sequence container, may also hold a document that is never loaded, because it is reset then. *)
 Fixpoint all_load (a : arch) (pl : pols) (t : ty) (d : doc) : bool :=
   match t with
-  | TInt => negb (unloaded (load_int pl 0%Z d))
-  | TBool => negb (unloaded (load_bool pl false d))
-  | TStr => negb (unloaded (load_str a pl [] d))
+  | TInt => negb (unloaded (load_int pl 0%Z (as_int a d)))
+  | TBool => negb (unloaded (load_bool pl false (as_bool a d)))
+  | TStr => negb (unloaded (load_str a pl [] (as_str a d)))
   | TSeq k t' =>
       match open_array a pl d with
       | Ok (Some (_, ds)) =>
@@ -176,27 +176,40 @@ Proof.
   - unfold object_unopened in H. destruct (open_object a pl d) as [[ms|]|e]; try discriminate. exists p. reflexivity.
 Qed.
 
+Lemma load_int_unloaded_default pl d v : load_int pl 0%Z d = Ok (v, false) -> v = 0%Z.
+Proof.
+  intros H. destruct d; cbn in H; try (inversion H; reflexivity).
+  - destruct (in_int32 z); [discriminate|]. unfold on_overflow in H. destruct (p_overflow pl); inversion H; reflexivity.
+  - unfold on_mismatch in H. destruct (p_mismatch pl); inversion H; reflexivity.
+  - unfold on_mismatch in H. destruct (p_mismatch pl); inversion H; reflexivity.
+  - unfold on_mismatch in H. destruct (p_mismatch pl); inversion H; reflexivity.
+Qed.
+Lemma load_bool_unloaded_default pl d v : load_bool pl false d = Ok (v, false) -> v = false.
+Proof.
+  intros H. destruct d; cbn in H; try (inversion H; reflexivity).
+  - destruct (Z.eqb z 0); [discriminate|]. destruct (Z.eqb z 1); [discriminate|].
+    unfold on_overflow in H. destruct (p_overflow pl); inversion H; reflexivity.
+  - unfold on_mismatch in H. destruct (p_mismatch pl); inversion H; reflexivity.
+  - unfold on_mismatch in H. destruct (p_mismatch pl); inversion H; reflexivity.
+  - unfold on_mismatch in H. destruct (p_mismatch pl); inversion H; reflexivity.
+Qed.
+Lemma load_str_unloaded_default a pl d v : load_str a pl [] d = Ok (v, false) -> v = [].
+Proof.
+  intros H. destruct d; cbn in H; try (inversion H; reflexivity).
+  - destruct (null_str a); try (inversion H; reflexivity).
+    unfold on_mismatch in H. destruct (p_mismatch pl); inversion H; reflexivity.
+  - unfold on_mismatch in H. destruct (p_mismatch pl); inversion H; reflexivity.
+  - unfold on_mismatch in H. destruct (p_mismatch pl); inversion H; reflexivity.
+  - unfold on_mismatch in H. destruct (p_mismatch pl); inversion H; reflexivity.
+  - unfold on_mismatch in H. destruct (p_mismatch pl); inversion H; reflexivity.
+Qed.
+
 Lemma load_unloaded_default a pl t : forall d v, load a pl t (tdefault t) d = Ok (v, false) -> v = tdefault t.
 Proof.
   destruct t; intros d v H; cbn [load tdefault] in H.
-  - destruct d; cbn in H; try (inversion H; reflexivity).
-    + destruct (in_int32 z); [discriminate|]. unfold on_overflow in H. destruct (p_overflow pl); inversion H; reflexivity.
-    + unfold on_mismatch in H. destruct (p_mismatch pl); inversion H; reflexivity.
-    + unfold on_mismatch in H. destruct (p_mismatch pl); inversion H; reflexivity.
-    + unfold on_mismatch in H. destruct (p_mismatch pl); inversion H; reflexivity.
-  - destruct d; cbn in H; try (inversion H; reflexivity).
-    + destruct (Z.eqb z 0); [discriminate|]. destruct (Z.eqb z 1); [discriminate|].
-      unfold on_overflow in H. destruct (p_overflow pl); inversion H; reflexivity.
-    + unfold on_mismatch in H. destruct (p_mismatch pl); inversion H; reflexivity.
-    + unfold on_mismatch in H. destruct (p_mismatch pl); inversion H; reflexivity.
-    + unfold on_mismatch in H. destruct (p_mismatch pl); inversion H; reflexivity.
-  - destruct d; cbn in H; try (inversion H; reflexivity).
-    + destruct (null_str a); try (inversion H; reflexivity).
-      unfold on_mismatch in H. destruct (p_mismatch pl); inversion H; reflexivity.
-    + unfold on_mismatch in H. destruct (p_mismatch pl); inversion H; reflexivity.
-    + unfold on_mismatch in H. destruct (p_mismatch pl); inversion H; reflexivity.
-    + unfold on_mismatch in H. destruct (p_mismatch pl); inversion H; reflexivity.
-    + unfold on_mismatch in H. destruct (p_mismatch pl); inversion H; reflexivity.
+  - exact (load_int_unloaded_default pl _ v H).
+  - exact (load_bool_unloaded_default pl _ v H).
+  - exact (load_str_unloaded_default a pl _ v H).
   - destruct (open_array a pl d) as [[[est ds]|]|e]; cbn [bind] in H; try discriminate; [|inversion H; reflexivity].
     destruct (unstate _); cbn [bind] in H; discriminate.
   - destruct (open_array a pl d) as [[[est ds]|]|e]; cbn [bind] in H; try discriminate; [|inversion H; reflexivity].
@@ -253,9 +266,9 @@ Theorem load_all_types_outside a pl : forall t p d,
 Proof.
   induction t as [ | | |k t' IH| |n t' IH|n|multi kt|kt t' IH|kt t' IH|k t' IH|ta IHa tb IHb];
     intros p d Hwt Hall; cbn [load all_load wt tdefault] in *.
-  - apply load_int_indep. destruct (unloaded (load_int pl 0%Z d)); [discriminate | reflexivity].
-  - apply load_bool_indep. destruct (unloaded (load_bool pl false d)); [discriminate | reflexivity].
-  - apply load_str_indep. destruct (unloaded (load_str a pl [] d)); [discriminate | reflexivity].
+  - apply load_int_indep. destruct (unloaded (load_int pl 0%Z (as_int a d))); [discriminate | reflexivity].
+  - apply load_bool_indep. destruct (unloaded (load_bool pl false (as_bool a d))); [discriminate | reflexivity].
+  - apply load_str_indep. destruct (unloaded (load_str a pl [] (as_str a d))); [discriminate | reflexivity].
   - (* TSeq *)
     destruct (open_array a pl d) as [[[est ds]|]|e]; cbn [bind]; try reflexivity; try discriminate.
     fold (uel a pl t').
@@ -316,9 +329,9 @@ Proof.
 Qed.
 
 (* the full-strength statement of C18 over the universe, and its refutation by F36 *)
-Definition json_arch : arch := mkArch false NullStrSkip 1.   (* since fix a88d81b / cde2a3b: null is 'not loaded' *)
-Definition msgpack_arch : arch := mkArch false NullStrSkip 1.
-Definition csv_arch : arch := mkArch true NullStrEmpty 0.
+Definition json_arch : arch := mkArch false NullStrSkip 1 None.   (* since fix a88d81b / cde2a3b: null is 'not loaded' *)
+Definition msgpack_arch : arch := mkArch false NullStrSkip 1 None.
+Definition csv_arch : arch := mkArch true NullStrEmpty 0 None.
 Definition default_pols : pols := mkPols PThrow PThrow.
 
 Definition C18_all_types_statement : Prop :=
